@@ -1,6 +1,7 @@
 package interpreter
 
 import (
+	"math/big"
 	"slices"
 
 	"github.com/formancehq/numscript/internal/parser"
@@ -91,7 +92,19 @@ func (st *programState) runBalancesQuery() error {
 	// reset batch query
 	st.CurrentBalanceQuery = BalanceQuery{}
 
-	st.CachedBalances = balances
+	// merge the fetched balances into the cache: entries we already know (and
+	// may have updated locally) are kept, and the amounts are copied so that the
+	// maps and numbers handed out by the store are never written to
+	for accountName, accountBalances := range balances {
+		cachedAccountBalances := defaultMapGet(st.CachedBalances, accountName, func() AccountBalance {
+			return AccountBalance{}
+		})
+		for asset, amount := range accountBalances {
+			if _, isAlreadyCached := cachedAccountBalances[asset]; !isAlreadyCached && amount != nil {
+				cachedAccountBalances[asset] = new(big.Int).Set(amount)
+			}
+		}
+	}
 	return nil
 }
 
